@@ -93,7 +93,7 @@ def _case(draw, tier):
         mesh = draw(_mesh(big))
         d = {
             "coord": draw(st.sampled_from(["coord", "xyz"])),
-            "blocks": draw(st.sampled_from(["one", "by-size", "by-size-desc"])),
+            "blocks": draw(st.sampled_from(["one", "by-size", "by-size-desc", "runs-1", "runs-2", "runs-4"])),
             "dtype": draw(st.sampled_from(["int32", "int64"])),
             "radius": draw(st.sampled_from([1.0, 1.0, 2.5])),
         }
@@ -501,4 +501,17 @@ def run_case(case, ctx):
                 fails.append(Failure("carried_over", site, "areas", f"face_areas {fa[:3]} vs supplied {exp[:3]}"))
         except Exception as e:  # noqa
             fails.append(Failure("carried_over", site, "areas-unavailable", repr(e)[:300]))
+    if fails:
+        return fails
+    # what the source carried is still what the grid reports once the tables it did not carry have been derived
+    derived = [q for q in ("face_edge_connectivity", "edge_face_connectivity", "node_face_connectivity", "face_face_connectivity", "edge_node_connectivity") if q not in g._ds]
+    if derived and fmt in ("ugrid", "icon", "mpas", "mpas-dual") and node_pos is not None:
+        for q in derived:
+            getattr(g, q)
+        site2 = site + ":after-derive"
+        _faces_match(g, expected, fails, site2, ctx, allow_reflection=allow_reflection, as_multiset=multiset)
+        if not fails:
+            _conn_carried(g, info, node_pos, fails, site2, ctx)
+        if not fails and "xyz_e" in info:
+            _centres_carried(g, info["xyz_e"], fails, site2, ctx, "edge")
     return fails
